@@ -74,6 +74,7 @@ package whispertool
 //@   ensures current_suffix: forall j :: 0 <= j && j < len(currentPoints) ==> currentPoints[j] == points[len(remainingPoints) + j]
 //@   ensures remaining_old: forall j :: 0 <= j && j < len(remainingPoints) ==> points[j].Time <= now - maxRetention
 //@   ensures current_young: forall j :: len(remainingPoints) <= j && j < len(points) ==> points[j].Time > now - maxRetention
+//@   ensures identity: currentPoints === points[len(remainingPoints):] && (len(remainingPoints) == 0 || remainingPoints === points[0:len(remainingPoints)])
 //@ loop extractPoints#0
 //@   invariant bounds: -1 <= i && i < len(points)
 //@   invariant young: forall j :: i < j && j < len(points) ==> points[j].Time > maxAge
@@ -914,3 +915,113 @@ package whispertool
 //@                 && ghost(nopen, 0) == old(ghost(nopen, 0)) + 1
 //@   ensures[C13] no_leak: result1 != nil ==> result0 == nil && ghost(nopen, 0) == old(ghost(nopen, 0)) && ghost(nlocked, 0) == old(ghost(nlocked, 0))
 //@   ensures[C07] invalid: !(1 <= aggregationMethod && aggregationMethod <= 6 && 0.0 <= xFilesFactor && xFilesFactor <= 1.0 && wellFormed(archiveInfoList)) ==> result1 != nil
+
+//@ func (*Whisper).GetAllRawUnsortedPoints
+//@   props C18 C15 C01
+//@   requires handleOK(w) && 0 <= archiveID && archiveID < len(w.header.archiveInfoList)
+//@   allocates <= 2 * fsize(w.fileBuf)
+//@   ensures kind: result1 == nil || isio(result1)
+//@   ensures all: result1 == nil ==> len(result0) == countOf(w, archiveID) && fresh(result0)
+//@                 && (forall j :: 0 <= j && j < countOf(w, archiveID) ==> result0[j].Time == slotT(w, archiveID, j) && bits(result0[j].Value) == slotB(w, archiveID, j))
+//@ loop (*Whisper).GetAllRawUnsortedPoints#0
+//@   invariant bounds: 0 <= i && i <= len(points) && off == archOf(w, archiveID).offset + 12 * i
+//@   invariant read: forall j :: 0 <= j && j < i ==> points[j].Time == slotT(w, archiveID, j) && bits(points[j].Value) == slotB(w, archiveID, j)
+
+//@ lemma floor_mono(s int, a int, b int)
+//@   props C03 C01
+//@   requires s > 0 && a <= b
+//@   use div_mono(s, a, b)
+//@   ensures mono: floorTo(a, s) <= floorTo(b, s) && floorTo(a, s) <= a && alignedTo(floorTo(a, s), s)
+
+//@ spec acount(r row:Point, off int, n int, s int) rec int = ite(n <= 0, 0, acount(r, off, n - 1, s) + ite(n == 1 || r[off + n - 1].Time != floorTo(r[off + n - 2].Time, s), 1, 0))
+
+//@ func (*ArchiveInfo).alignPoints
+//@   props C03 C01
+//@   requires a != nil && validArchive(*a) && sortedByTime(points)
+//@   ensures fresh: fresh(result) && len(result) <= len(points) && (len(points) > 0 ==> len(result) > 0)
+//@   ensures count: len(result) == acount(row(points), points.off, len(points), a.secondsPerPoint)
+//@   ensures sorted: sortedByTime(result)
+//@   ensures aligned: forall j :: 0 <= j && j < len(result) ==> alignedTo(result[j].Time, a.secondsPerPoint) && result[j].Time <= points[len(points) - 1].Time
+//@   ensures times: forall i :: 0 <= i && i < len(points) ==> 1 <= acount(row(points), points.off, i + 1, a.secondsPerPoint)
+//@                 && acount(row(points), points.off, i + 1, a.secondsPerPoint) <= len(result)
+//@                 && result[acount(row(points), points.off, i + 1, a.secondsPerPoint) - 1].Time == floorTo(points[i].Time, a.secondsPerPoint)
+//@   ensures last_value: len(points) > 0 ==> bits(result[len(result) - 1].Value) == bits(points[len(points) - 1].Value)
+//@                 && result[len(result) - 1].Time == floorTo(points[len(points) - 1].Time, a.secondsPerPoint)
+//@   ensures first: len(points) > 0 ==> result[0].Time == floorTo(points[0].Time, a.secondsPerPoint)
+//@ loop (*ArchiveInfo).alignPoints#0
+//@   use floor_mono(a.secondsPerPoint, points[i - 1].Time, points[i].Time) when 0 < i && i < len(points)
+//@   invariant bounds: 0 <= i && i <= len(points)
+//@   invariant fresh: alignedPoints.arr > old(top) && cap(alignedPoints) == len(points) && len(alignedPoints) <= i && 0 <= len(alignedPoints) && (i > 0 ==> len(alignedPoints) > 0)
+//@   invariant count: len(alignedPoints) == acount(row(points), points.off, i, a.secondsPerPoint)
+//@   invariant next: acount(row(points), points.off, i + 1, a.secondsPerPoint) >= acount(row(points), points.off, i, a.secondsPerPoint)
+//@   invariant prev: i > 0 ==> prevTime == floorTo(points[i - 1].Time, a.secondsPerPoint) && alignedPoints[len(alignedPoints) - 1].Time == prevTime
+//@                 && bits(alignedPoints[len(alignedPoints) - 1].Value) == bits(points[i - 1].Value)
+//@   invariant first: i > 0 ==> alignedPoints[0].Time == floorTo(points[0].Time, a.secondsPerPoint)
+//@   invariant sorted: sortedByTime(alignedPoints)
+//@   invariant aligned: forall j :: 0 <= j && j < len(alignedPoints) ==> alignedTo(alignedPoints[j].Time, a.secondsPerPoint) && alignedPoints[j].Time <= points[len(points) - 1].Time
+//@   invariant times: forall k :: 0 <= k && k < i ==> 1 <= acount(row(points), points.off, k + 1, a.secondsPerPoint)
+//@                 && acount(row(points), points.off, k + 1, a.secondsPerPoint) <= len(alignedPoints)
+//@                 && alignedPoints[acount(row(points), points.off, k + 1, a.secondsPerPoint) - 1].Time == floorTo(points[k].Time, a.secondsPerPoint)
+
+//@ lemma aligned_diff(s int, a int, b int)
+//@   props C01 C03
+//@   requires s > 0 && alignedTo(a, s) && alignedTo(b, s)
+//@   use mod_unique(a - b, s, a fdiv s - b fdiv s, 0)
+//@   ensures diff: (a - b) fmod s == 0 && alignedTo(a - b, s)
+
+//@ spec effBase(w *Whisper, k int, first int) int = ite(old(baseOf(w, k)) == 0, floorTo(first, stepOf(w, k)), old(baseOf(w, k)))
+
+//@ func (*Whisper).archiveUpdateMany
+//@   props C01 C03 C05
+//@   requires handleOK(w) && 0 <= archiveID && archiveID < len(w.header.archiveInfoList) && clockOK(w, now)
+//@   requires sortedByTime(points) && len(points) > 0 && points[len(points) - 1].Time <= now
+//@   modifies fb(w.fileBuf)
+//@   ensures kind: result == nil || isio(result)
+//@   ensures finer_untouched: forall b :: b < archOf(w, archiveID).offset ==> fbyte(w.fileBuf, b) == old(fbyte(w.fileBuf, b))
+//@   ensures last: result == nil && alignedTo(effBase(w, archiveID, points[0].Time), stepOf(w, archiveID))
+//@                 && -2147483648 < floorTo(points[len(points) - 1].Time, stepOf(w, archiveID)) - effBase(w, archiveID, points[0].Time)
+//@                 && floorTo(points[len(points) - 1].Time, stepOf(w, archiveID)) - effBase(w, archiveID, points[0].Time) <= 2147483647
+//@                 ==> slotT(w, archiveID, idxOf(archOf(w, archiveID), effBase(w, archiveID, points[0].Time), floorTo(points[len(points) - 1].Time, stepOf(w, archiveID)))) == floorTo(points[len(points) - 1].Time, stepOf(w, archiveID))
+//@                 && slotB(w, archiveID, idxOf(archOf(w, archiveID), effBase(w, archiveID, points[0].Time), floorTo(points[len(points) - 1].Time, stepOf(w, archiveID)))) == bits(points[len(points) - 1].Value)
+//@ loop (*Whisper).archiveUpdateMany#0
+//@   use aligned_diff(stepOf(w, archiveID), alignedPoints[iter].Time, baseInterval) when iter < len(alignedPoints) && alignedTo(baseInterval, stepOf(w, archiveID))
+//@   use idx_facts(archOf(w, archiveID), baseInterval, alignedPoints[iter].Time, 0) when iter < len(alignedPoints) && alignedTo(baseInterval, stepOf(w, archiveID))
+//@   invariant bounds: 0 <= iter && iter <= len(alignedPoints)
+//@   invariant frame: forall b :: (b < archOf(w, archiveID).offset || b >= archOf(w, archiveID).offset + 12 * countOf(w, archiveID)) ==> fbyte(w.fileBuf, b) == old(fbyte(w.fileBuf, b))
+//@   invariant lastw: iter > 0 && alignedTo(baseInterval, stepOf(w, archiveID))
+//@                 && -2147483648 < alignedPoints[iter - 1].Time - baseInterval && alignedPoints[iter - 1].Time - baseInterval <= 2147483647
+//@                 ==> slotT(w, archiveID, idxOf(archOf(w, archiveID), baseInterval, alignedPoints[iter - 1].Time)) == alignedPoints[iter - 1].Time
+//@                 && slotB(w, archiveID, idxOf(archOf(w, archiveID), baseInterval, alignedPoints[iter - 1].Time)) == bits(alignedPoints[iter - 1].Value)
+
+//@ spec newestSlotHolds(w *Whisper, k int, t int, v int, first int) bool =
+//@        slotT(w, k, idxOf(archOf(w, k), effBase(w, k, first), floorTo(t, stepOf(w, k)))) == floorTo(t, stepOf(w, k))
+//@        && slotB(w, k, idxOf(archOf(w, k), effBase(w, k, first), floorTo(t, stepOf(w, k)))) == v
+
+//@ func (*Whisper).UpdatePointsForArchive
+//@   props C03 C01 C05
+//@   requires handleOK(w) && now != 0 && clockOK(w, now) && -1 <= archiveID && archiveID < len(w.header.archiveInfoList)
+//@   requires forall j :: 0 <= j && j < len(points) ==> points[j].Time <= now
+//@   modifies points[0:len(points)], fb(w.fileBuf)
+//@   ensures kind: result == nil || isio(result)
+//@   ensures sorted: sortedByTime(points)
+//@   ensures header_untouched: forall b :: b < 16 + 12 * len(w.header.archiveInfoList) ==> fbyte(w.fileBuf, b) == old(fbyte(w.fileBuf, b))
+//@   ensures finer_untouched: archiveID >= 0 ==> forall b :: b < archOf(w, archiveID).offset ==> fbyte(w.fileBuf, b) == old(fbyte(w.fileBuf, b))
+//@   ensures[C03] too_old_dropped: archiveID >= 0 && (len(points) == 0 || points[len(points) - 1].Time <= now - retOf(w, archiveID)) ==> frow(w.fileBuf) == old(frow(w.fileBuf))
+//@   ensures[C03,C01] newest_named: archiveID >= 0 && len(points) > 0 && points[len(points) - 1].Time > now - retOf(w, archiveID) && result == nil
+//@                 && old(baseOf(w, archiveID)) != 0 && alignedTo(old(baseOf(w, archiveID)), stepOf(w, archiveID))
+//@                 && -2147483648 < floorTo(points[len(points) - 1].Time, stepOf(w, archiveID)) - old(baseOf(w, archiveID))
+//@                 && floorTo(points[len(points) - 1].Time, stepOf(w, archiveID)) - old(baseOf(w, archiveID)) <= 2147483647
+//@                 ==> newestSlotHolds(w, archiveID, points[len(points) - 1].Time, bits(points[len(points) - 1].Value), 0)
+//@ loop (*Whisper).UpdatePointsForArchive#0
+//@   invariant newest_named: archiveID >= 0 && iter > archiveID && len(entry(points)) > 0 && entry(points)[len(entry(points)) - 1].Time > now - retOf(w, archiveID)
+//@                 && old(baseOf(w, archiveID)) != 0 && alignedTo(old(baseOf(w, archiveID)), stepOf(w, archiveID))
+//@                 && -2147483648 < floorTo(entry(points)[len(entry(points)) - 1].Time, stepOf(w, archiveID)) - old(baseOf(w, archiveID))
+//@                 && floorTo(entry(points)[len(entry(points)) - 1].Time, stepOf(w, archiveID)) - old(baseOf(w, archiveID)) <= 2147483647
+//@                 ==> newestSlotHolds(w, archiveID, entry(points)[len(entry(points)) - 1].Time, bits(entry(points)[len(entry(points)) - 1].Value), 0)
+//@   invariant bounds: 0 <= iter && iter <= len(w.header.archiveInfoList)
+//@   invariant remaining: len(points) == 0 || (points === entry(points)[0:len(points)] && len(points) <= len(entry(points)))
+//@   invariant sorted: sortedByTime(entry(points)) && forall j :: 0 <= j && j < len(entry(points)) ==> entry(points)[j].Time <= now
+//@   invariant header_untouched: forall b :: b < 16 + 12 * len(w.header.archiveInfoList) ==> fbyte(w.fileBuf, b) == old(fbyte(w.fileBuf, b))
+//@   invariant finer_untouched: archiveID >= 0 ==> forall b :: b < archOf(w, archiveID).offset ==> fbyte(w.fileBuf, b) == old(fbyte(w.fileBuf, b))
+//@   invariant untouched_before: archiveID >= 0 && iter <= archiveID ==> frow(w.fileBuf) == old(frow(w.fileBuf)) && len(points) == len(entry(points))
+//@   invariant too_old: archiveID >= 0 && (len(entry(points)) == 0 || entry(points)[len(entry(points)) - 1].Time <= now - retOf(w, archiveID)) ==> frow(w.fileBuf) == old(frow(w.fileBuf))
